@@ -1022,8 +1022,9 @@ func (txcacheComp) Gen(rng *rand.Rand, tier string) [][]string {
 		steps = 60
 	}
 	var hs [][]string
+	hs = append(hs, txDirected()...)
 	for i := 0; i < nh; i++ {
-		if i%10 == 6 {
+		if i%10 == 6 || i%10 == 3 {
 			hs = append(hs, genTxStorm(rng, i))
 			continue
 		}
@@ -1032,13 +1033,33 @@ func (txcacheComp) Gen(rng *rand.Rand, tier string) [][]string {
 	return hs
 }
 
+// txDirected: fixed histories, present in every run whatever the seed
+func txDirected() [][]string {
+	return [][]string{
+		// eviction by bytes, batches of ONE: the three same-nonce alternatives of sender a0 are the least valuable transactions; the
+		// first pass takes one of them (its siblings go along), the next passes pop the stale siblings and must NOT end the eviction
+		// while the pool (1000 bytes) is still above the threshold (900): two transactions of sender c0 have to go as well
+		{"begin txcache chunks=2 evict=1 nb=900 nbs=1000000 c=1000 cs=100 n=1",
+			"tx a101 a0 0 1 10 50 10 0 -", "tx a102 a0 0 1 20 50 20 0 -", "tx a103 a0 0 1 30 50 30 0 -",
+			"tx c101 c0 0 2 10 100 20 0 -", "tx c102 c0 1 2 10 100 20 0 -",
+			"tx b101 b0 0 3 10 800 30 0 -", "tx d101 d0 0 4 10 50 40 0 -", "tx d102 d0 1 4 10 50 40 0 -",
+			"add a101", "add a102", "add a103", "add c101", "add c102", "add b101", "add d101", "add d102", "add a101"},
+		// the same with batches of two and four alternatives
+		{"begin txcache chunks=1 evict=1 nb=900 nbs=1000000 c=1000 cs=100 n=2",
+			"tx a101 a0 0 1 10 50 10 0 -", "tx a102 a0 0 1 20 50 20 0 -", "tx a103 a0 0 1 30 50 30 0 -", "tx a104 a0 0 1 40 50 40 0 -",
+			"tx c101 c0 0 2 10 100 20 0 -", "tx c102 c0 1 2 10 100 20 0 -", "tx c103 c0 2 2 10 100 20 0 -",
+			"tx b101 b0 0 3 10 800 30 0 -", "tx d101 d0 0 4 10 50 40 0 -", "tx d102 d0 1 4 10 50 40 0 -",
+			"add a101", "add a102", "add a103", "add a104", "add c101", "add c102", "add c103", "add b101", "add d101", "add d102"},
+	}
+}
+
 // genTxStorm: directed eviction histories — "fee-bump storms" (one sender holding several same-nonce alternatives that are the
 // least valuable transactions of the pool), ties on the price per unit across senders (order decided by gas limit / hash),
 // uneven sizes with a byte threshold that needs several passes, small batch sizes. These are the shapes in which a heap that
 // is advanced wrongly, a sibling removed as collateral, or a pass that removes nothing make eviction deviate.
 func genTxStorm(rng *rand.Rand, idx int) []string {
-	n := pick(rng, 1, 1, 2, 2, 3)
-	c := pick(rng, 6, 8, 10, 12, 1000)
+	n := pick(rng, 1, 1, 1, 2, 2, 3)
+	c := pick(rng, 8, 12, 20, 1000, 1000)
 	nb := pick(rng, 400, 600, 900, 1000, 1000000)
 	if c == 1000 && nb == 1000000 {
 		nb = 900
@@ -1060,6 +1081,10 @@ func genTxStorm(rng *rand.Rand, idx int) []string {
 	if rng.Intn(3) == 0 {
 		prices = []uint64{1, 1, 1} // everything ties on the price per unit
 	}
+	pure := idx%20 < 10 // the storm's alternatives are strictly the least valuable transactions of the pool, all with one price
+	if pure {
+		prices = []uint64{2, 3, 3}
+	}
 	for si := 0; si < nSenders; si++ {
 		sender := []byte{byte(0xb0 + si), byte(rng.Intn(256))}
 		nonces := 2 + rng.Intn(3)
@@ -1067,6 +1092,9 @@ func genTxStorm(rng *rand.Rand, idx int) []string {
 			alts := 1
 			if si == 0 && nonce == nonces-1 {
 				alts = n + 1 + rng.Intn(3) // the storm: more same-nonce alternatives than one batch takes
+				if pure {
+					alts = 2*n + 1 + rng.Intn(2) // …and more left over than a further whole batch
+				}
 			} else if rng.Intn(4) == 0 {
 				alts = 2
 			}
@@ -1077,6 +1105,10 @@ func genTxStorm(rng *rand.Rand, idx int) []string {
 				}
 				gasLimit := pick(rng, uint64(10), 10, 20, 50)
 				size := pick(rng, 50, 50, 100, 200)
+				if pure && si == 0 && nonce == nonces-1 {
+					mk(sender, uint64(nonce), 1, gasLimit, size)
+					continue
+				}
 				mk(sender, uint64(nonce), price+uint64(a), gasLimit, size) // same nonce: distinct gas prices order the siblings
 			}
 		}
